@@ -15,6 +15,11 @@
 //        -> "ess heap=<0|1> allocs=<n> rb=<0|1> eq=<0|1> neq=<0|1> copyallocs=<n> copyrb=<0|1> frees=<n>"
 //   al N <prev|-1> <state> | al L <self> <node> | al P  stack_node_add_link on a graph of stack nodes
 //        -> "al <id>:<t1>,<t2>…;<id>:…"
+//   bits                  compile-time facts of the real headers, measured: an all-ones inline Subtree read
+//                         back through ts_subtree_padding/size/lookahead_bytes (= the largest value every
+//                         size field can hold), and the slot count of StackNode.links
+//                         plus new_leaf with a 9-bit symbol / with external tokens (must stay on the heap)
+//        -> "bits inline=<0|1> pb=<max> pr=<max> pc=<max> sb=<max> la=<max> links=<slots> maxlinks=<MAX_LINK_COUNT> sym300inline=<0|1> sym300rb=<sym> extinline=<0|1>"
 //   fuzz <seed> <iters>   (only useful with -DTSV_PARSER_C: adversarial API use for sanitizer builds)
 #include TSV_REPO_LIB_C
 #include <stdio.h>
@@ -166,6 +171,24 @@ int main(void) {
         default: break;
       }
       print_arr(&a);
+    } else if (!strcmp(tok, "bits")) {
+      Subtree ones;
+      memset(&ones, 0xFF, sizeof ones);
+      Length p = ts_subtree_padding(ones), sz = ts_subtree_size(ones);
+      // a symbol that does not fit the 8-bit inline field / a language with external tokens must not inline
+      static TSSymbolMetadata wide_md[512];
+      TSLanguage wide = fake;
+      wide.symbol_count = 512;
+      wide.symbol_metadata = wide_md;
+      Length one = {1, {0, 1}};
+      Subtree big = ts_subtree_new_leaf(&pool, 300, one, one, 0, 3, false, false, false, &wide);
+      Subtree ext = ts_subtree_new_leaf(&pool, 1, one, one, 0, 3, true, false, false, &fake);
+      printf("bits inline=%d pb=%u pr=%u pc=%u sb=%u la=%u links=%u maxlinks=%u sym300inline=%d sym300rb=%u extinline=%d\n",
+             ones.data.is_inline ? 1 : 0, p.bytes, p.extent.row, p.extent.column, sz.bytes, ts_subtree_lookahead_bytes(ones),
+             (unsigned)(sizeof(((StackNode *)0)->links) / sizeof(StackLink)), (unsigned)MAX_LINK_COUNT,
+             big.data.is_inline ? 1 : 0, (unsigned)ts_subtree_symbol(big), ext.data.is_inline ? 1 : 0);
+      ts_subtree_release(&pool, big);
+      ts_subtree_release(&pool, ext);
     } else if (!strcmp(tok, "inl")) {
       uint32_t v[7] = {0}; char *t; unsigned n = 0;
       while ((t = strtok(NULL, " \n")) && n < 7) v[n++] = (uint32_t)strtoul(t, NULL, 10);
